@@ -120,8 +120,11 @@ def stage1(op, lf, rf, lscalar=False, rscalar=False):
     import tensora.compile as tcomp
     import tensora.tensor as tmod
 
-    left = 2.5 if lscalar else DimTensor("left", lf)
-    right = 0.5 if rscalar else DimTensor("right", rf)
+    # a scalar operand is a symbolic float: comparisons against it fork, float() concretises
+    left = pyproxy.SymReal(z3.Real("left_scalar")) if lscalar else DimTensor("left", lf)
+    right = pyproxy.SymReal(z3.Real("right_scalar")) if rscalar else DimTensor("right", rf)
+    inconclusive = []
+    kept_requests = {}
     compat, spec, nat = expected(op, lf, rf, lscalar, rscalar)
     problems = []
     rec = {}
@@ -153,7 +156,8 @@ def stage1(op, lf, rf, lscalar=False, rscalar=False):
             if r is NotImplemented:
                 problems.append("returned NotImplemented")
             else:
-                problems.append("returned without evaluating")
+                # a result without a kernel request (a shortcut): judged concretely below
+                inconclusive.append(_scalar_value(left, right))
         except Recorded:
             seen["recorded"] += 1
             # must only happen when shapes are compatible
@@ -166,17 +170,24 @@ def stage1(op, lf, rf, lscalar=False, rscalar=False):
                 for nm, val, isscalar in (("left", left, lscalar), ("right", right, rscalar)):
                     got = inputs[nm]
                     if isscalar:
-                        if not (isinstance(got, Tensor) and got.order == 0 and float(got) == float(val)):
+                        if not (isinstance(got, Tensor) and got.order == 0 and float(got) == getattr(val, "chosen", None)):
                             problems.append(f"scalar operand {nm} not passed as an order-0 tensor of the same value")
                     elif got is not val:
                         problems.append(f"operand {nm} bound to the wrong tensor")
             if nat is not None and of != nat:
                 problems.append(f"output format {of!r} differs from the documented rule {nat!r}")
-            rec["keep"] = (a, of)
+            kept_requests["keep"] = (a, of)
         except ValueError:
             seen["raised"] += 1
             if m.check(compat_cond()) != z3.unsat:
                 problems.append("ValueError although the shapes are compatible")
+        except (Recorded, pyproxy.Infeasible, HarnessError):
+            raise
+        except Exception:  # noqa: BLE001 - a shortcut that touched the proxy's (absent) data
+            if lscalar or rscalar:
+                inconclusive.append(_scalar_value(left, right))
+            else:
+                raise
 
     real = tcomp.evaluate_tensora
     tcomp.evaluate_tensora = recorder
@@ -184,7 +195,55 @@ def stage1(op, lf, rf, lscalar=False, rscalar=False):
         stats = pyproxy.explore(base, body)
     finally:
         tcomp.evaluate_tensora = real
-    return problems, rec.get("keep"), spec, stats, seen
+    for sv in inconclusive:
+        if sv is None:
+            problems.append("operator returned without requesting a kernel")
+            continue
+        bad = concrete_scalar_check(op, lf if not lscalar else rf, sv, lscalar)
+        if bad:
+            problems.append(bad)
+    return problems, kept_requests.get("keep"), spec, stats, seen
+
+
+def _scalar_value(left, right):
+    for x in (left, right):
+        if isinstance(x, pyproxy.SymReal):
+            m = pyproxy.engine()
+            if m.check() != z3.sat:
+                return None
+            v = m.solver.model().eval(x.t, model_completion=True)
+            return float(v.numerator_as_long()) / float(v.denominator_as_long())
+    return None
+
+
+def concrete_scalar_check(op, fmt, scalar, scalar_on_left):
+    """The operator took a path that requests no kernel for this scalar: compare its result on a
+    real tensor with element-wise arithmetic."""
+    import itertools
+
+    dims = tuple([2, 3, 2][: fmt.order])
+    data = {}
+    for k, c in enumerate(itertools.product(*[range(d) for d in dims])):
+        if k % 2 == 0:
+            data[c] = float(k + 1)
+    t = Tensor.from_dok(data, dimensions=dims, format=fmt)
+    import operator as _op
+
+    f = {"+": _op.add, "-": _op.sub, "*": _op.mul}[op]
+    try:
+        got = f(scalar, t) if scalar_on_left else f(t, scalar)
+    except Exception as e:  # noqa: BLE001
+        return f"operator with scalar {scalar} raised {type(e).__name__}"
+    gd = dict(got.items())
+    for c in itertools.product(*[range(d) for d in dims]):
+        a = data.get(c, 0.0)
+        want = f(scalar, a) if scalar_on_left else f(a, scalar)
+        if gd.get(c, 0.0) != want:
+            side = "left" if scalar_on_left else "right"
+            return f"scalar {scalar} on the {side} of {op}: value at {c} is {gd.get(c, 0.0)}, expected {want}"
+    if tuple(got.dimensions) != dims:
+        return f"scalar {scalar} {op}: wrong dimensions {got.dimensions}"
+    return None
 
 
 def fmt_pool(order, rng, k):
